@@ -300,6 +300,10 @@ func (x *Exec) runFunc(fd *ast.FuncDecl, c *Contract, sc splitCase, first bool) 
 	pre := st.clone()
 	// old$param names for old(param)
 	x.oldStack = []*State{pre}
+	// explicit ghost instrumentation at entry
+	for _, ge := range c.GhostEntry {
+		x.applyEffect(st, st, ge, bodyPos, x.qual)
+	}
 
 	end := x.execBlock(st, fd.Body.List)
 	if x.failed != nil {
@@ -373,7 +377,7 @@ func (x *Exec) runFunc(fd *ast.FuncDecl, c *Contract, sc splitCase, first bool) 
 			x.oblige(es, "typeinv", "typeinv."+tp.pred, x.b.Implies(tp.when, g), fd.Pos(), nil)
 		}
 		// frame: heap arrays not in modifies are unchanged
-		if c.Modifies != nil || c.Pure {
+		if (c.Modifies != nil && !contains(c.Modifies, "*")) || c.Pure {
 			x.checkFrame(exit, pre, c, fd.Pos())
 		}
 		// ghost frame: ghosts not declared in modifies are unchanged
@@ -890,6 +894,14 @@ func (x *Exec) checkFrame(exit, pre *State, c *Contract, pos token.Pos) {
 	allowed := func(k string) bool {
 		if strings.HasPrefix(k, "ghost.mutexHeld") {
 			return contains(c.Modifies, "ghost.mutexHeld")
+		}
+		if k == "alloc.mapempty" {
+			// map bookkeeping: covered by alloc or by any map in the frame
+			for _, m := range c.Modifies {
+				if m == "alloc" || strings.HasPrefix(m, "map") {
+					return true
+				}
+			}
 		}
 		for _, m := range c.Modifies {
 			if m == "*" || m == "heap" || m == k || strings.HasPrefix(k, m+".") {
